@@ -276,6 +276,16 @@ def evaluate(item, which):
     out = []
     if "C06" in which:
         out += [("C06", i, d) for i, d in c06_monitor(r)]
+        # the flag views in the other call order, on a fresh runner: the widest view first, the default one afterwards
+        r0 = make_runner(item)
+        sig = lambda ps: sorted(tuple(observe.Anon()(str(c)) for c in p) for p in ps)  # noqa: E731
+        full0 = sig(r0.get_column_lineage(exclude_path_ending_in_subquery=False))
+        compact0 = sig(r0.get_column_lineage(exclude_subquery_columns=True))
+        default0 = sig(r0.get_column_lineage())
+        if default0 != sig(r.get_column_lineage()):
+            out.append(("C06", "I2", "get_column_lineage() differs when the flag variants were called first on the same object"))
+        if full0 != sig(r.get_column_lineage(exclude_path_ending_in_subquery=False)) or compact0 != sig(r.get_column_lineage(exclude_subquery_columns=True)):
+            out.append(("C06", "I2", "a flag variant of get_column_lineage() depends on the call order"))
     if "C18" in which:
         # accessor-order dimension: a fresh runner whose first access is the export / the summary
         out += [("C18", i, d) for i, d in c18_monitor(r, item)]
